@@ -190,7 +190,7 @@ class StmtOps:
                 else:
                     q = self.seq_of(base)
                     n = "(len %s)" % q
-                    st.oblige(mk_and(mk_le('0', idx.term), mk_lt(idx.term, n)), 'list store index in range', node.lineno)
+                    self.index_ok(mk_and(mk_le('0', idx.term), mk_lt(idx.term, n)), 'list store index in range', node.lineno)
                     nq = st.decls.const('qst', 'Int')
                     st.assume(mk_eq("(len %s)" % nq, n), 'def')
                     st.assume(mk_eq("(at %s %s)" % (nq, idx.term), self.box(v)), 'def')
@@ -382,6 +382,7 @@ class StmtOps:
                 g = a[6:]
                 st.ghost[g] = self.fresh_like('g_' + g, st.ghost[g])
             else:
+                st.heap_arr(a)          # makes sure the entry (base) array exists: the function's frame check compares against it
                 st.heap[a] = st.decls.const('H_' + a, '(Array Int Val)')
                 st.bump(a)
 
